@@ -16,6 +16,7 @@ DataValid(d) == LET c == CatChunks(d) IN L2Valid(c) /\ EndIndex(c) = Len(c)
 AllData == 1..Len(DataCat)
 OkData == {d \in AllData : DataValid(d)}
 BadData == AllData \ OkData
+UncData == {d \in OkData : \A k \in 1..Len(CatChunks(d)) : CatChunks(d)[k].k \in {"unc", "end"}} \ {d \in OkData : Len(CatChunks(d)) = 1}
 
 Chains == << <<F("lzma2", 1)>>,
              <<F("delta", 1), F("lzma2", 1)>>,
@@ -33,6 +34,9 @@ StarOpts == {BaseOpt}
             \cup {Opt(BaseD, hc, hu, 1, 0) : hc, hu \in BOOLEAN}
             \cup {Opt(BaseD, FALSE, FALSE, ch, 0) : ch \in 1..Len(Chains)}
             \cup {Opt(BaseD, FALSE, FALSE, 1, 4)}
+            \* plain (all-uncompressed) data under every chain: the concretiser chooses its content per chain
+            \* (convertible BCJ instructions near the end of the data)
+            \cup {Opt(d, hc, hc, ch, 0) : d \in UncData, ch \in 2..Len(Chains), hc \in BOOLEAN}
 ComboOpts == {Opt(d, TRUE, TRUE, ch, xp) : d \in OkData, ch \in {1, 4}, xp \in {0, 4}}
              \cup {Opt(d, hc, hu, 2, 0) : d \in OkData, hc, hu \in BOOLEAN}
 BlockOpts == CASE Profile = "tiny" -> {BaseOpt, Opt(BaseD, TRUE, TRUE, 2, 4)}
